@@ -78,7 +78,11 @@ func sumsScenarioOn(w *world, mi int, only []pair) engine.Scenario {
 	return engine.Scenario{Name: name, Bound: -1, Fn: func(c *engine.Chooser) {
 		w.ensure(c)
 		pi := c.Choose(len(ps), "pair")
-		uni.Seed(c, name, pi, mi)
+		coeff := only == nil && c.Choose(2, "domain") == 1
+		uni.Seed(c, name, pi, mi, coeff)
+		if coeff {
+			c.Cover("domain", "coefficient-sums")
+		}
 		p, method := ps[pi], sumMethods[mi]
 		batch, n := p.batch, p.n
 		c.Note("%s batch=%d n=%d rowLen=%d rows=%d", method, batch, n, w.rowLen, w.rows)
@@ -118,7 +122,7 @@ func sumsScenarioOn(w *world, mi int, only []pair) engine.Scenario {
 				}
 				return
 			}
-			out, err, pan := run(list, w.encrypt(re, im), func(o *ops, in, out *rlwe.Ciphertext) error { return o.innerSum(in, batch, n, out) })
+			out, err, pan := run(list, w.encryptIn(re, im, coeff), func(o *ops, in, out *rlwe.Ciphertext) error { return o.innerSum(in, batch, n, out) })
 			if noP {
 				return
 			}
@@ -138,6 +142,12 @@ func sumsScenarioOn(w *world, mi int, only []pair) engine.Scenario {
 					return
 				}
 				// accepted although n*batch does not divide Slots: then it must at least compute the sums it documents
+			}
+			if err != nil && coeff {
+				// a scheme-level method may refuse a coefficient-domain ciphertext with an error (bgv.InnerSum over the
+				// whole matrix goes through Add, which documents NTT-only operands): a clean refusal, not a wrong result
+				c.Cover("rejected", "InnerSum-coefficient-domain")
+				return
 			}
 			if err != nil {
 				c.Fail(sig+"/failed-with-advertised-keys", "%s: InnerSum(batch=%d,n=%d) with keys for exactly GaloisElementsForInnerSum: %v", w.name, batch, n, err)
@@ -181,7 +191,7 @@ func sumsScenarioOn(w *world, mi int, only []pair) engine.Scenario {
 			if method == "RotateAndAdd" {
 				list = w.listInnerSum(batch, n)
 			}
-			out, err, pan := run(list, w.encrypt(re, im), func(o *ops, in, out *rlwe.Ciphertext) error {
+			out, err, pan := run(list, w.encryptIn(re, im, coeff), func(o *ops, in, out *rlwe.Ciphertext) error {
 				switch method {
 				case "RotateAndAdd":
 					return o.rotateAdd(in, batch, n, out)
@@ -196,6 +206,22 @@ func sumsScenarioOn(w *world, mi int, only []pair) engine.Scenario {
 			if err != nil || pan != nil {
 				c.Fail(sig+"/failed-with-advertised-keys", "%s: %s(batch=%d,n=%d) with keys for exactly GaloisElementsForInnerSum: err=%v panic=%v", w.name, method, batch, n, err, pan)
 				return
+			}
+			if n >= 2 && batch%w.rowLen != 0 && !(w.np == 0 && method != "InnerFunction") {
+				// the refusal side: without any Galois key a sum of two or more distinct rotations must be refused with an error
+				if _, err2, pan2 := run(nil, w.encryptIn(re, im, coeff), func(o *ops, in, out *rlwe.Ciphertext) error {
+					switch method {
+					case "RotateAndAdd":
+						return o.rotateAdd(in, batch, n, out)
+					case "PartialTracesSum":
+						return o.rl.PartialTracesSum(in, batch, n, out)
+					}
+					return o.rl.InnerFunction(in, batch, n, o.add, out)
+				}); pan2 != nil || err2 == nil {
+					c.Fail(sig+"/missing-keys-not-refused", "%s: %s(batch=%d,n=%d) on an evaluator without Galois keys: err=%v panic=%v", w.name, method, batch, n, err2, pan2)
+					return
+				}
+				c.Cover("refusal", "sum-without-keys")
 			}
 			wr, wi := partialTraces(re, w.rowLen, batch, n), partialTraces(im, w.rowLen, batch, n)
 			var mask []bool
@@ -218,7 +244,7 @@ func sumsScenarioOn(w *world, mi int, only []pair) engine.Scenario {
 				}
 			}
 			list := w.listReplicate(batch, n)
-			out, err, pan := run(list, w.encrypt(gre, gim), func(o *ops, in, out *rlwe.Ciphertext) error { return o.rl.Replicate(in, batch, n, out) })
+			out, err, pan := run(list, w.encryptIn(gre, gim, coeff), func(o *ops, in, out *rlwe.Ciphertext) error { return o.rl.Replicate(in, batch, n, out) })
 			if noP {
 				return
 			}
@@ -270,9 +296,10 @@ func averageScenario(w *world) engine.Scenario {
 	return engine.Scenario{Name: name, Bound: -1, Fn: func(c *engine.Chooser) {
 		w.ensure(c)
 		lb := c.Choose(logSlots+2, "logBatch")
-		uni.Seed(c, name, lb)
+		coeff := c.Choose(2, "domain") == 1
+		uni.Seed(c, name, lb, coeff)
 		re, im := w.ramp()
-		ct := w.encrypt(re, im)
+		ct := w.encryptIn(re, im, coeff)
 		if lb > logSlots {
 			o := w.newOps(nil)
 			out := ct.CopyNew()
